@@ -3,7 +3,16 @@ package props
 import (
 	"encoding/json"
 	"fmt"
+	"go/ast"
+	"go/parser"
+	"go/token"
+	"os"
+	"path/filepath"
 	"sort"
+	"strconv"
+	"strings"
+	"sync"
+	"time"
 
 	"github.com/zmap/zlint/v3/lint"
 
@@ -200,4 +209,168 @@ func init() {
 		}
 		return judgePred(c)
 	})
+}
+
+// harvestedDates: every time.Date(...) literal with constant year / month / day in zlint's util, lint and lints
+// packages (read with go/parser from the tree under test) - the instants at which some rule changes its mind, whether
+// it says so in its metadata or in its body.
+func harvestedDates() []time.Time {
+	dateOnce.Do(func() {
+		seen := map[int64]bool{}
+		months := map[string]int{"January": 1, "February": 2, "March": 3, "April": 4, "May": 5, "June": 6, "July": 7, "August": 8, "September": 9, "October": 10, "November": 11, "December": 12}
+		num := func(e ast.Expr) (int, bool) {
+			switch x := e.(type) {
+			case *ast.BasicLit:
+				n, err := strconv.Atoi(x.Value)
+				return n, err == nil
+			case *ast.SelectorExpr:
+				if id, ok := x.X.(*ast.Ident); ok && id.Name == "time" {
+					m, ok := months[x.Sel.Name]
+					return m, ok
+				}
+			}
+			return 0, false
+		}
+		_ = filepath.Walk(gen.RepoV3(), func(p string, info os.FileInfo, err error) error {
+			if err != nil || info.IsDir() || !strings.HasSuffix(p, ".go") || strings.HasSuffix(p, "_test.go") {
+				return nil
+			}
+			rel, _ := filepath.Rel(gen.RepoV3(), p)
+			if !(strings.HasPrefix(rel, "util/") || strings.HasPrefix(rel, "lints/") || strings.HasPrefix(rel, "lint/")) {
+				return nil
+			}
+			af, err := parser.ParseFile(token.NewFileSet(), p, nil, 0)
+			if err != nil {
+				return nil
+			}
+			ast.Inspect(af, func(n ast.Node) bool {
+				call, ok := n.(*ast.CallExpr)
+				if !ok || len(call.Args) < 3 {
+					return true
+				}
+				sel, ok := call.Fun.(*ast.SelectorExpr)
+				if !ok || sel.Sel.Name != "Date" {
+					return true
+				}
+				if id, ok := sel.X.(*ast.Ident); !ok || id.Name != "time" {
+					return true
+				}
+				y, ok1 := num(call.Args[0])
+				m, ok2 := num(call.Args[1])
+				d, ok3 := num(call.Args[2])
+				if ok1 && ok2 && ok3 && y >= 1990 && y <= 2045 {
+					t := time.Date(y, time.Month(m), d, 0, 0, 0, 0, time.UTC)
+					if !seen[t.Unix()] {
+						seen[t.Unix()] = true
+						dates = append(dates, t)
+					}
+				}
+				return true
+			})
+			return nil
+		})
+		sort.Slice(dates, func(i, j int) bool { return dates[i].Before(dates[j]) })
+	})
+	return dates
+}
+
+var (
+	dateOnce sync.Once
+	dates    []time.Time
+)
+
+// datedPredecessors: the predecessor sweep again with predecessors that the corpus does not hold - every lint's
+// home objects re-dated to one second before each harvested date (the interval between two consecutive dates is
+// where a rule's body may take a branch of its own); victims are the lint's home objects as they are.
+func datedPredecessors(rec *stats.Rec, onViolation func(string)) {
+	hm := homeObjects()
+	ds := harvestedDates()
+	rec.ClassN("harvested_dates", int64(len(ds)))
+	lints := registryLints(lint.GlobalRegistry())
+	sort.Slice(lints, func(i, j int) bool { return lints[i].Name < lints[j].Name })
+	type key struct {
+		obj  int
+		kind string
+		at   int64
+	}
+	cache := map[key]interface{}{}
+	cacheDER := map[key][]byte{}
+	pairs := int64(0)
+	for li, l := range lints {
+		if !stats.Mine(li) || l.Kind == "ocsp" {
+			continue
+		}
+		kind := map[string]gen.Kind{"cert": gen.Cert, "crl": gen.CRL}[l.Kind]
+		homes := hm[l.Name]
+		if len(homes) == 0 {
+			continue
+		}
+		objs := kindObjs(l.Kind)
+		nv := len(homes)
+		if nv > 12 {
+			nv = 12
+		}
+		type vic struct {
+			obj  interface{}
+			o    gen.Obj
+			ref  model.Verdict
+			have bool
+		}
+		var victims []vic
+		for _, hi := range homes[:nv] {
+			if p, ok := parsedOf(kind, objs[hi].DER); ok {
+				v := vic{obj: p, o: objs[hi]}
+				v.ref, v.have = runOne(l.Name, kind, p)
+				victims = append(victims, v)
+			}
+		}
+		ns := 2
+		if len(homes) < ns {
+			ns = len(homes)
+		}
+		for _, hi := range homes[:ns] {
+			for _, d := range ds {
+				at := d.Add(-time.Second)
+				k := key{hi, l.Kind, at.Unix()}
+				src, ok := cache[k]
+				if !ok {
+					if c, good := redatedCase(objs[hi], at, gen.TimeForm(0)); good {
+						if p, pok := parsedOf(kind, c.DER); pok {
+							src = p
+							cacheDER[k] = c.DER
+						}
+					}
+					cache[k] = src
+				}
+				if src == nil {
+					continue
+				}
+				for _, v := range victims {
+					if !v.have {
+						continue
+					}
+					runOne(l.Name, kind, src)
+					after, ok := runOne(l.Name, kind, v.obj)
+					pairs++
+					if !ok {
+						continue
+					}
+					c := c05PredCase{Lint: l.Name, Kind: kind, Source: cacheDER[k], Victim: v.o.DER, SourceBase: objs[hi].Name + " re-dated to " + at.Format(time.RFC3339), VictimBase: v.o.Name}
+					if sig, msg := cmpPred(c, v.ref, after); msg != "" {
+						if s2, m2 := judgePred(c); m2 != "" {
+							sig, msg = s2, m2
+						} else {
+							msg += " (seen in the sweep on shared parsed objects; not reproduced by the three-step replay on fresh parses)"
+						}
+						if rec.Report("c05-pred", sig, msg, c) {
+							onViolation(fmt.Sprintf("c05 dated predecessors: %s: %s", sig, msg))
+							return
+						}
+					}
+				}
+			}
+		}
+	}
+	rec.EvalN(pairs)
+	rec.ClassN("dated_predecessor_pairs", pairs)
 }
